@@ -182,8 +182,8 @@ open Cellml.Props.C01 (relayDoc relayL)
 example (us : Option Unit) : ∃ ps, genParse relayFd us = .ok ps ∧ ps.flat = some (relayL.flat relayDoc) := by
   have hr : loadFull relayFd = .ok (relayL.flat relayDoc) := relay_loadFull
   rcases load_total_gen relayFd us with ⟨ps, F, h1, h2, h3⟩ | ⟨e, _, e', h', _⟩
-  · rw [hr] at h3; cases h3; exact ⟨ps, h1, h2⟩
-  · rw [hr] at h'; cases h'
+  · rw [hr] at h3; rw [← Except.ok.inj h3] at h2; exact ⟨ps, h1, h2⟩
+  · rw [hr] at h'; exact nomatch h'
 
 /-- a faulty one is refused by it -/
 example (us : Option Unit) :
